@@ -8,6 +8,7 @@
   (nullable, readOnly). The regex and format oracles of `env` are arbitrary.
 -/
 import SV.Proofs.C01
+import SV.Proofs.C01Regex
 
 namespace SV.Props.C01
 open SV SV.Model.C01 SV.Spec.JsonSchema SV.Spec.C01 SV.Proofs.C01
@@ -112,5 +113,102 @@ example :
     validF 3 (envPlain {}) (transform { vForbid := .repaired } 4 (.obj kvs)) (.obj [("c", .str "x")]) = true ∧
     validF 3 (envPlain {}) (transform { vForbid := .repaired } 4 (.obj kvs)) (.obj [("c", .str "x"), ("b", .num 1 0)]) = false := by
   decide
+
+
+/-! ## pattern x minLength/maxLength merging (`patterns.update_quantifier`) on the regex model -/
+
+section Regex
+open SV.Model.C01Regex SV.Spec.C01Regex SV.Proofs.C01Regex
+
+/-- **C01_pattern_merge_sound.** Pattern anchored at both ends (`^`/`\A` … `$`/`\Z`), middle made of literals and
+    repeats of one-character-wide expressions (literal, class, `.`, `\d`…, alternations of those), not a single bare
+    literal, repeat bounds well-formed, and either the repaired zero test of `_distribute_length_constraints` or a
+    `maxLength` different from the number of literals. Then whenever `update_quantifier` re-renders the pattern (which
+    is exactly when `update_pattern_in_schema` drops `minLength`/`maxLength`), every string that matches the new
+    pattern matches the old one **and** has a length within `[minLength, maxLength]`: the generator cannot leave the
+    documented language. Covers the single-repeat shape and the multi-part distribution algorithm (exact-length
+    search and range distribution), for every atom interpretation `sat`. -/
+theorem C01_pattern_merge_sound {α : Type} (sat : α → Char → Bool) (v : SV.Model.C01Regex.Variant)
+    (first last : Item α) (middle : List (Item α)) (lo hi : Option Nat) (out : List (Item α))
+    (hb : isBegin first = true) (he : isEnd last = true) (hs : simpleMiddle middle = true)
+    (hwf : wfBounds (repBounds middle)) (hbare : ∀ a, middle ≠ [.lit a])
+    (hv : v = .repaired ∨ ∀ h, hi = some h → h ≠ countLits middle) (hhi : ∀ h, hi = some h → h < MAXREPEAT)
+    (hq : updateQuantifier v (first :: middle ++ [last]) lo hi = .ok out true) :
+    ∃ middle', out = first :: middle' ++ [last] ∧
+      ∀ s, SearchAnchored sat middle' s →
+        SearchAnchored sat middle s ∧ lo.getD 0 ≤ s.length ∧ ∀ h, hi = some h → s.length ≤ h :=
+  updateQuantifier_sound v first last middle lo hi out hb he hs hwf hbare hv hhi hq
+
+/-- non-vacuity of `C01_pattern_merge_sound`: `^[a-z]+$` with `maxLength 3` is re-rendered as `^([a-z]){1,3}$`, and
+    `^a[0-9]{1,4}-[a-z]*$` with `minLength = maxLength = 5` gets the distribution `{1}` / `{2}` -/
+example :
+    updateQuantifier .asFound [.at .bos, .rep 1 MAXREPEAT (.atom 0), .at .eos] none (some 3)
+      = .ok [.at .bos, .rep 1 3 (.atom 0), .at .eos] true ∧
+    updateQuantifier .asFound [.at .bos, .lit 1, .rep 1 4 (.atom 3), .lit 9, .rep 0 MAXREPEAT (.atom 0), .at .eos] (some 5) (some 5)
+      = .ok [.at .bos, .lit 1, .rep 1 1 (.atom 3), .lit 9, .rep 2 2 (.atom 0), .at .eos] true := by
+  decide
+
+/-- **C01_pattern_merge_full_false (F5)**: without anchors the merge is unsound — `[a-z]` + `maxLength 3` becomes
+    `([a-z]){1,3}`, which "aaaaaaa" matches under search semantics although it is 7 characters long. -/
+theorem C01_pattern_merge_unanchored_full_false :
+    updateQuantifier .asFound [(.cls 0 : Item Nat)] none (some 3) = .ok [.rep 1 3 (.atom 0)] true ∧
+    SearchFree satW [(.rep 1 3 (.atom 0) : Item Nat)] "aaaaaaa".toList ∧ ¬ ("aaaaaaa".toList.length ≤ 3) := by
+  refine ⟨by decide, ⟨"aaaa".toList, "aaa".toList, [], by decide, ?_⟩, by decide⟩
+  exact .cat (.rep [['a'], ['a'], ['a']] (fun w hw => by
+      simp only [List.mem_cons, List.mem_nil_iff, or_false] at hw
+      rcases hw with rfl | rfl | rfl <;> exact .atom (by decide)) (by decide) (.inr (by decide))) .eps
+
+/-- **(F28)**: a repeat of a two-character group — `^(ab)+$` + `maxLength 3` becomes `^(ab){1,3}$` with the length
+    keyword dropped; "ababab" (6 characters) matches. -/
+theorem C01_pattern_merge_wide_group_full_false :
+    updateQuantifier .asFound [(.at .bos : Item Nat), .rep 1 MAXREPEAT (.cat (.atom 1) (.atom 2)), .at .eos] none (some 3)
+      = .ok [.at .bos, .rep 1 3 (.cat (.atom 1) (.atom 2)), .at .eos] true ∧
+    SearchAnchored satW [(.rep 1 3 (.cat (.atom 1) (.atom 2)) : Item Nat)] "ababab".toList ∧
+    ¬ ("ababab".toList.length ≤ 3) := by
+  refine ⟨by decide, ?_, by decide⟩
+  exact .cat (.rep [['a', 'b'], ['a', 'b'], ['a', 'b']] (fun w hw => by
+      simp only [List.mem_cons, List.mem_nil_iff, or_false] at hw
+      rcases hw with rfl | rfl | rfl <;>
+        exact Matches.cat (u := ['a']) (w := ['b']) (.atom (by decide)) (.atom (by decide))) (by decide) (.inr (by decide))) .eps
+
+/-- **(F32)**: a bare atom between anchors gets a quantifier — `^a$` + `maxLength 3` becomes `^(a){1,3}$`; "aaa"
+    matches the new pattern and does not match `^a$`. -/
+theorem C01_pattern_merge_bare_atom_full_false :
+    updateQuantifier .asFound [(.at .bos : Item Nat), .lit 1, .at .eos] none (some 3)
+      = .ok [.at .bos, .rep 1 3 (.atom 1), .at .eos] true ∧
+    SearchAnchored satW [(.rep 1 3 (.atom 1) : Item Nat)] "aaa".toList ∧
+    ¬ SearchAnchored satW [(.lit 1 : Item Nat)] "aaa".toList := by
+  refine ⟨by decide, ?_, ?_⟩
+  · exact .cat (.rep [['a'], ['a'], ['a']] (fun w hw => by
+      simp only [List.mem_cons, List.mem_nil_iff, or_false] at hw
+      rcases hw with rfl | rfl | rfl <;> exact .atom (by decide)) (by decide) (.inr (by decide))) .eps
+  · intro h
+    obtain ⟨u, w, e, h1, h2⟩ := cat_inv h
+    have := atom_len h1
+    have := eps_inv h2
+    subst this
+    simp at e
+    subst e
+    simp at this
+
+/-- **(F36)**: `remaining_max = max_length or MAXREPEAT` — `^a[0-9]*$` + `maxLength 1` is re-rendered with the repeat
+    still unbounded (and `maxLength` dropped): "a12" matches; the repaired zero test gives `{0}`. -/
+theorem C01_pattern_merge_zero_max_full_false :
+    updateQuantifier .asFound [(.at .bos : Item Nat), .lit 1, .rep 0 MAXREPEAT (.atom 3), .at .eos] none (some 1)
+      = .ok [.at .bos, .lit 1, .rep 0 MAXREPEAT (.atom 3), .at .eos] true ∧
+    SearchAnchored satW [(.lit 1 : Item Nat), .rep 0 MAXREPEAT (.atom 3)] "a12".toList ∧ ¬ ("a12".toList.length ≤ 1) ∧
+    updateQuantifier .repaired [(.at .bos : Item Nat), .lit 1, .rep 0 MAXREPEAT (.atom 3), .at .eos] none (some 1)
+      = .ok [.at .bos, .lit 1, .rep 0 0 (.atom 3), .at .eos] true := by
+  refine ⟨by decide, ?_, by decide, by decide⟩
+  exact Matches.cat (u := ['a']) (.atom (by decide)) (.cat (.rep [['1'], ['2']] (fun w hw => by
+      simp only [List.mem_cons, List.mem_nil_iff, or_false] at hw
+      rcases hw with rfl | rfl <;> exact .atom (by decide)) (by decide) (.inl (by decide))) .eps)
+
+/-- F35: a bare class with `minLength > maxLength` makes the rewriter build `{3,1}` — InternalError -/
+theorem C01_pattern_merge_internal_error :
+    updateQuantifier .asFound [(.cls 0 : Item Nat)] (some 3) (some 1) = .internalError := by
+  decide
+
+end Regex
 
 end SV.Props.C01
